@@ -20,7 +20,8 @@
 (* bit), end = how the sequence of calls ended (eof | ueof | other | inj | *)
 (* none | panic | hang), fired = the injected error was actually           *)
 (* delivered to the reader, makb = largest number of KiB allocated by one  *)
-(* call.                                                                   *)
+(* call, runkb = KiB allocated by the whole run (MemStats.TotalAlloc; 0 =  *)
+(* not measured).                                                          *)
 (*                                                                         *)
 (* Accepted iff                                                            *)
 (*  - no call panics, hangs or aborts the process;                         *)
@@ -55,7 +56,7 @@ GroupReason(g, boundKB) ==
   ELSE IF g.end = "hang" THEN "hang"
   ELSE IF \E i \in 1..Len(g.calls) : CallReason(g.calls[i]) # "ok"
        THEN CallReason(g.calls[CHOOSE i \in 1..Len(g.calls) : CallReason(g.calls[i]) # "ok"])
-  ELSE IF g.makb > boundKB THEN "allocation-out-of-proportion"
+  ELSE IF g.makb > boundKB \/ g.runkb > (Len(g.calls) + 2) * boundKB THEN "allocation-out-of-proportion"
   ELSE IF g.end = "none" THEN "no-error-at-end-of-stream"
   ELSE "ok"
 
